@@ -16,7 +16,12 @@ SPEC = {
             "ext24 over 2^24; thorough tier also every 32-bit pattern through bswap32/bswap32f/sign_extend and ctor/raw/++/-- of the "
             "nine 32-bit wrappers. 48/64-bit: every single-lane pattern b<<8k and complement, all pairs of lanes, 2^k, 2^k+-1, "
             "boundary cross products and seeded boundary-biased random values. distinct_nontrivial = distinct (wrapper, operation) "
-            "and (helper, workload) classes, e.g. be_int32_t:<<=, re_double:pre++, ext48:lanes.",
+            "and (helper, workload) classes, e.g. be_int32_t:<<=, re_double:pre++, ext48:lanes. Round 4 (part chain): for every wrapper and operator "
+            "the static result type/value category (compound and plain assignment: lvalue designating the object; prefix ++/--: the "
+            "exposed type; postfix: prvalue of the exposed type - decided by type traits at run time, never a build failure), "
+            "chained use of the result as an lvalue ((w op1= a) op2= b and auto&& r = (w op1= a); r op2= b over all 10x10 / 4x4 "
+            "operator pairs) against the same chain on the native type, and every operator result consumed as __int128 / long double "
+            "without narrowing first (all 2^16 values of the 16-bit wrappers through ++/--, boundary + seeded values otherwise).",
     "level_text": "Exhaustive on the 8/16/24-bit spaces (and on all 2^32 patterns in the thorough tier); dense boundary-biased sampling, "
                   "not symbolic reasoning, on 48/64-bit values and on operator/operand pairs: a defect confined to a 64-bit value "
                   "without lane or boundary structure would be missed.",
@@ -34,6 +39,10 @@ SPEC = {
         + ["%s:%s" % (w, op) for w in _WRAPPERS for op in ("pre++", "pre--", "post++", "post--", "+=", "-=", "[*]=", "/=")]
         + ["%s:%s" % (w, op) for w in _WRAPPERS if not w.endswith(("float", "double"))
            for op in ("%=", "&=", "|=", "^=", "<<=", ">>=")]
+        + ["%s:chain:%s" % (w, op) for w in _WRAPPERS for op in ("+=", "-=", "[*]=", "/=")]
+        + ["%s:chain:%s" % (w, op) for w in _WRAPPERS if not w.endswith(("float", "double"))
+           for op in ("%=", "&=", "|=", "^=", "<<=", ">>=")]
+        + ["%s:wide:%s" % (w, op) for w in _WRAPPERS for op in ("pre++", "pre--", "post++", "post--", "=")]
         + ["bswap8:exhaustive", "bswap16:exhaustive", "bswap24:exhaustive", "bswap24s:exhaustive", "ext24:exhaustive",
            "bswap32:lanes", "bswap32f:lanes", "bswap48:lanes", "bswap48s:lanes", "ext48:lanes", "bswap64:lanes", "bswap64f:lanes",
            "bswap64:sampled", "ext48:sampled", "sign_extend:uint8_t->int16_t", "sign_extend:int16_t->uint64_t",
